@@ -352,7 +352,83 @@ Theorem every_schedule_stable sched :
   stable_state nl wpol rk (bound_of sc) (fst (run_sched wpol e nl (binit b) sched)).
 Proof. eapply GI_stable. apply run_sched_inv. apply GI_init. Qed.
 
+Lemma reach_GI sched : GI (length (bs_progs b)) (fst (run_sched wpol e nl (binit b) sched)).
+Proof. apply run_sched_inv. apply GI_init. Qed.
+
+(* user data is read under a hold and written under the exclusive hold *)
+Lemma GI_data n s t pos l : GI n s ->
+  (parked (get_thr (b_thr s) t) = Some (ORead pos l) -> holds_b (b_w s) t l = true) /\
+  (parked (get_thr (b_thr s) t) = Some (OWrite pos l) -> writer_is (w_raw (b_w s) l) t = true).
+Proof.
+  intros G.
+  assert (X : forall op, parked (get_thr (b_thr s) t) = Some op ->
+              exists H K o p, agree t (b_w s) H K /\ nextop p = NOp op /\
+                              wp p H K (Qr_of (th_loc (get_thr (b_thr s) t)) o) (Qt_of (th_loc (get_thr (b_thr s) t)) o)
+                                 (QF_of (th_loc (get_thr (b_thr s) t)) o)).
+  { intros op PK. destruct (Nat.lt_ge_cases t n) as [Lt|Ge].
+    2:{ unfold get_thr in PK. rewrite nth_overflow in PK by (rewrite (gi_len _ _ G); exact Ge). discriminate. }
+    destruct (gi_thr _ _ G t Lt) as [H [K [A R]]]. unfold parked in PK.
+    destruct (th_over (get_thr (b_thr s) t)); cbn [orb] in PK; [discriminate|].
+    destruct (th_started (get_thr (b_thr s) t)); cbn [negb] in PK; [|discriminate].
+    destruct (th_cur (get_thr (b_thr s) t)) as [[o p]|]; [|discriminate].
+    destruct R as [_ [_ [_ W]]]. destruct (nextop p) as [v| | | |op'] eqn:N; try discriminate. inversion PK; subst op'.
+    exists H, K, o, p. auto. }
+  split; intros PK; destruct (X _ PK) as [H [K [o [p [A [N W]]]]]]; pose proof (wp_nextop nl rk p H K _ _ _ W) as D; rewrite N in D.
+  - destruct D as [x Hx]. destruct A as [A1 [A2 _]]. unfold holds_b. destruct x.
+    + apply hcount_in in Hx. rewrite A1 in Hx. destruct (writer_is (w_raw (b_w s) l) t); [reflexivity|lia].
+    + apply hcount_in in Hx. rewrite A2 in Hx. assert (M : memb t (readers (w_raw (b_w s) l)) = true) by (apply cnt_memb; exact Hx).
+      rewrite M. apply orb_true_r.
+  - destruct A as [A1 _]. apply hcount_in in D. rewrite A1 in D. destruct (writer_is (w_raw (b_w s) l) t); [reflexivity|lia].
+Qed.
+
 End Main.
+
+(* ---------------------------------------------------------------- exclusive holds stay exclusive (any scenario) *)
+Lemma rawwf_clear w : rawwf w -> rawwf (clear_trace w).
+Proof. apply rawwf_ext. intros; reflexivity. Qed.
+
+Lemma drain_calls_rawwf ra lr e t : forall rest loc w evs,
+  rawwf w -> rawwf (snd (fst (drain_calls ra lr e t loc rest w evs))).
+Proof.
+  induction rest as [|o r IH]; intros loc w evs R; cbn [drain_calls]; [exact R|].
+  destruct (api_prog e loc o) as [p|]; [|apply IH; exact R].
+  pose proof (adv_rawwf ra lr t p (clear_trace w) (rawwf_clear _ R)) as D.
+  destruct (adv ra lr t p (clear_trace w)) as [out w'|p' w']; [|exact D].
+  destruct (api_fin e loc o out) as [lc' rc]. destruct (stops rc); [exact D|]. apply IH. exact D.
+Qed.
+
+Lemma settle_rawwf ra lr e t o loc rest p w evs :
+  rawwf w -> rawwf (snd (fst (settle ra lr e t o loc rest p w evs))).
+Proof.
+  intros R. unfold settle.
+  pose proof (adv_rawwf ra lr t p (clear_trace w) (rawwf_clear _ R)) as D.
+  destruct (adv ra lr t p (clear_trace w)) as [out w'|p' w']; [|exact D].
+  destruct (api_fin e loc o out) as [lc' rc]. destruct (stops rc); [exact D|]. apply drain_calls_rawwf. exact D.
+Qed.
+
+Lemma turn_rawwf ra wpo e nl0 s t : rawwf (b_w s) -> rawwf (b_w (turn_g ra wpo e nl0 s t)).
+Proof.
+  intros R. unfold turn_g. destruct (negb (th_started (get_thr (b_thr s) t))).
+  - pose proof (drain_calls_rawwf ra false e t (th_rest (get_thr (b_thr s) t)) (th_loc (get_thr (b_thr s) t)) (b_w s) (b_evs s) R) as D.
+    destruct (drain_calls ra false e t (th_loc (get_thr (b_thr s) t)) (th_rest (get_thr (b_thr s) t)) (b_w s) (b_evs s)) as [[th' w'] evs'].
+    exact D.
+  - destruct (th_cur (get_thr (b_thr s) t)) as [[o p]|]; [|exact R].
+    pose proof (step_rawwf (pendw wpo (b_thr s) t) t p (clear_trace (b_w s)) (rawwf_clear _ R)) as D.
+    destruct (step (pendw wpo (b_thr s) t) t p (clear_trace (b_w s))) as [v| | | |p' w1|w1]; try exact R.
+    match goal with |- context [settle ?a ?b ?c ?d ?e0 ?f ?g ?h ?i ?j] =>
+      pose proof (settle_rawwf a b c d e0 f g h i j D) as X; destruct (settle a b c d e0 f g h i j) as [[th' w'] evs'] end.
+    exact X.
+Qed.
+
+Lemma run_sched_rawwf ra wpo e nl0 : forall sched s, rawwf (b_w s) -> rawwf (b_w (fst (run_sched_g ra wpo e nl0 s sched))).
+Proof.
+  induction sched as [|t r IH]; intros s R; cbn [run_sched_g].
+  - cbn [fst]. destruct (note_waits_same wpo nl0 (seq 0 (length (b_thr s))) s) as [A _]. rewrite A. exact R.
+  - destruct (note_waits_same wpo nl0 (seq 0 (length (b_thr s))) s) as [A _].
+    destruct (enabled wpo (note_waits wpo nl0 s (seq 0 (length (b_thr s)))) t).
+    + apply IH. apply turn_rawwf. rewrite A. exact R.
+    + cbn [fst]. rewrite A. exact R.
+Qed.
 
 (* ---------------------------------------------------------------- the hypotheses, as a decidable test of the scenario *)
 Section Decide.
@@ -476,4 +552,51 @@ Proof.
     unfold enabled in En. destruct (Nat.lt_ge_cases t' (length (b_thr s))) as [X|X]; [lia|].
     unfold get_thr in En. rewrite nth_overflow in En by exact X. cbn [th_over] in En. discriminate. }
   rewrite AE. split; discriminate.
+Qed.
+
+(* ---------------------------------------------------------------- C02 on every schedule *)
+Lemma wfB_parts b : wfB b = true ->
+  env_ok (sc_nlocks (bs_sc b)) (rk_of (bs_sc b)) (sc_env (bs_sc b)) /\ sc_pre (bs_sc b) = [] /\ sc_f1 (bs_sc b) = [] /\
+  sc_fp (bs_sc b) = [] /\ Forall (fun ops => closed false ops = true) (bs_progs b).
+Proof.
+  unfold wfB. intros W. repeat (apply andb_true_iff in W; destruct W as [W ?]).
+  split; [now apply env_okb_ok|].
+  split; [destruct (sc_pre (bs_sc b)); [reflexivity|discriminate]|].
+  split; [destruct (sc_f1 (bs_sc b)); [reflexivity|discriminate]|].
+  split; [destruct (sc_fp (bs_sc b)); [reflexivity|discriminate]|].
+  apply Forall_forall. intros ops Ho. rewrite forallb_forall in H0. now apply H0.
+Qed.
+
+Theorem every_schedule_data_under_hold b sched t pos l :
+  wfB b = true ->
+  let sc := bs_sc b in
+  let s := fst (run_sched (bs_wp b) (sc_env sc) (sc_nlocks sc) (binit b) sched) in
+  (parked (get_thr (b_thr s) t) = Some (ORead pos l) -> holds_b (b_w s) t l = true) /\
+  (parked (get_thr (b_thr s) t) = Some (OWrite pos l) -> writer_is (w_raw (b_w s) l) t = true).
+Proof.
+  intros W sc s. destruct (wfB_parts b W) as [EO [PRE [F1 [FP CL]]]].
+  eapply GI_data. apply reach_GI; assumption.
+Qed.
+
+(* two threads are never at conflicting accesses of the same lock's data *)
+Theorem every_schedule_exclusive b sched t u pos pos' l :
+  wfB b = true ->
+  let sc := bs_sc b in
+  let s := fst (run_sched (bs_wp b) (sc_env sc) (sc_nlocks sc) (binit b) sched) in
+  t <> u ->
+  parked (get_thr (b_thr s) t) = Some (OWrite pos l) ->
+  parked (get_thr (b_thr s) u) <> Some (OWrite pos' l) /\ parked (get_thr (b_thr s) u) <> Some (ORead pos' l).
+Proof.
+  intros W sc s N PT.
+  pose proof (proj2 (every_schedule_data_under_hold b sched t pos l W) PT) as WT. fold sc in WT. fold s in WT.
+  assert (R : rawwf (b_w s)).
+  { apply run_sched_rawwf. unfold binit. cbn [b_w]. destruct (wfB_parts b W) as [_ [PRE _]].
+    intros l0. unfold sc_world. rewrite PRE. cbn [fold_right w_raw]. intros X. reflexivity. }
+  unfold writer_is in WT. destruct (writer (w_raw (b_w s) l)) as [x|] eqn:EW; [|discriminate]. apply Nat.eqb_eq in WT. subst x.
+  split; intros PU.
+  - pose proof (proj2 (every_schedule_data_under_hold b sched u pos' l W) PU) as WU. fold sc in WU. fold s in WU.
+    unfold writer_is in WU. rewrite EW in WU. apply Nat.eqb_eq in WU. congruence.
+  - pose proof (proj1 (every_schedule_data_under_hold b sched u pos' l W) PU) as HU. fold sc in HU. fold s in HU.
+    unfold holds_b, writer_is in HU. rewrite EW in HU. destruct (Nat.eqb_spec t u); [congruence|]. cbn [orb] in HU.
+    specialize (R l). unfold xwf in R. rewrite EW in R. rewrite R in HU by discriminate. discriminate.
 Qed.
